@@ -13,7 +13,7 @@ def short(x, n=160):
 
 
 def run_convs(pid, convs, rep, keys=("wire", "cbs", "closed", "rets"), monitors=(S.cb_wf, S.wire_wf), par=24,
-              extra_check=None, repeat=1, kinds=None, confirm=2):
+              extra_check=None, repeat=1, kinds=None, confirm=2, procs=1):
     """convs: list of Conv. Returns coverage dict; registers violations on rep."""
     multi = bool(convs) and isinstance(convs[0], S.Multi)
     custom = bool(convs) and getattr(convs[0], "no_model", False)
@@ -23,7 +23,22 @@ def run_convs(pid, convs, rep, keys=("wire", "cbs", "closed", "rets"), monitors=
     else:
         exp = S.expected_multi(convs) if multi else S.expected_for(convs)
     scs = [c.scenario() for c in convs]
-    results, leak, crashes = S.run_sys(scs, par=par)
+    if procs > 1 and len(scs) >= 2 * procs:
+        # schedule points are process-wide: scenarios that arm one run one at a time, but in several driver processes
+        import concurrent.futures as cf
+        chunks = [list(range(k, len(scs), procs)) for k in range(procs)]
+        with cf.ThreadPoolExecutor(procs) as ex:
+            parts = list(ex.map(lambda ix: S.run_sys([scs[i] for i in ix], par=par), chunks))
+        results = [None] * len(scs)
+        leak, crashes = {"leaked_goroutines": 0, "sample": ""}, []
+        for ix, (rs, lk, cr) in zip(chunks, parts):
+            for i, r in zip(ix, rs):
+                results[i] = r
+            if lk.get("leaked_goroutines", 0) > 0:
+                leak = lk
+            crashes += cr
+    else:
+        results, leak, crashes = S.run_sys(scs, par=par)
 
     def evaluate(items):
         """items: list of (index, conv, expected, result) -> (diffs, monitor_hits) tagged with the index"""
